@@ -829,3 +829,16 @@ func (s *sched) describeBlocked() []string {
 	sort.Strings(out)
 	return out
 }
+
+// describeAll lists every goroutine that has not finished.
+func (s *sched) describeAll() []string {
+	var out []string
+	for _, g := range s.gs {
+		if g.state == gDone {
+			continue
+		}
+		st := [...]string{"runnable", "running", "blocked", "done"}[g.state]
+		out = append(out, fmt.Sprintf("g%d[%s] %s %s", g.id, g.entry, st, g.blockedOn))
+	}
+	return out
+}
